@@ -72,7 +72,7 @@ CHECKS = {
                      "region model rebuilt from the call history (exact join geometry on the outer bisector of every joint), and "
                      "simple paths re-loaded from GDSII/OASIS PATH records probed with the same model.",
                 note="Trusted: pbt/pathmodel.py. Undecidable samples (within band = 3 x tolerance of the boundary, ambiguous bend fits, "
-                     "ill-conditioned displaced-line joints) are not used. Known finding C07-K1 (round ends in OASIS).",
+                     "ill-conditioned displaced-line joints) are not used.",
                 technique="property-based testing (Hypothesis) with an independent swept-region membership oracle and a write/read differential"),
     "C08": dict(level="exploration", design="4 C08",
                 text="Generated RobustPath histories: (A) position/gradient/width/offset queries at drawn parameters (every integer "
